@@ -2,6 +2,7 @@ package bgp
 
 import (
 	"fmt"
+	"strings"
 	"net"
 	"sort"
 	"time"
@@ -225,6 +226,11 @@ func (p *Peer) handle(c *Conn, raw []byte) {
 	}
 	if err != nil {
 		p.env.Violate("WIRE", "dut_msg_undecodable", "%s: type %d: %v (opts %+v)", c.name, raw[18], err, p.opts)
+		if raw[18] == MsgUpdate && strings.Contains(err.Error(), "as_path") {
+			// C09: what is sent to a neighbour carries an AS_PATH the neighbour can read (with the local
+			// ASN in front on eBGP sessions); one that does not decode carries nothing
+			p.env.Violate("C09", "as_path_sent_malformed", "%s: UPDATE whose AS_PATH does not decode: %v", c.name, err)
+		}
 		return
 	}
 	p.Rx = append(p.Rx, RxMsg{At: now, Conn: c, Msg: m})
